@@ -123,9 +123,9 @@ theorem logon_reset_received (s : Sess) (m : InMsg) (hi : s.cfg.initiator = fals
   -- stage 2: the reset
   have hreset : ((if s2.cfg.initiator = true then false else s2.cfg.resetOnLogon) || logonResetFlag m && !s2.sentReset) = true := by
     rw [hf, a2.2.2.1, hsr]; simp
-  obtain ⟨s3, hs3⟩ : ∃ x, x = s2.storeReset := ⟨_, rfl⟩
+  obtain ⟨s3, hs3⟩ : ∃ x, x = dropAndReset s2 := ⟨_, rfl⟩
   have a3 : s3.cfg = s.cfg ∧ s3.st = s.st ∧ s3.out = s.out ∧ s3.store.target = 1 ∧ Obs.reset ∈ s3.log := by
-    rw [hs3]; exact ⟨a2.1, a2.2.1, a2.2.2.2, rfl, by simp [Sess.storeReset, Sess.emit]⟩
+    rw [hs3]; exact ⟨a2.1, a2.2.1, a2.2.2.2, rfl, by simp [dropAndReset, Sess.setToSend, Sess.storeReset, Sess.emit]⟩
   have c3 := a3.1
   have e2 : verifySelect s3 m false true false = (s3, none) := by
     rw [verifySelect_complete s3 m false true false (by rw [c3]; exact hg.begin) (by rw [c3]; exact hg.comp)
@@ -232,7 +232,7 @@ theorem shouldSendReset_fix40 (s : Sess) (h : s.cfg.bs = 0) : shouldSendReset s 
 def connectBase (s : Sess) : Sess :=
   let s := s.openConn
   let s := if s.cfg.refreshOnLogon then s.emit .refresh else s
-  if s.cfg.resetOnLogon then s.storeReset else s
+  if s.cfg.resetOnLogon then dropAndReset s else s
 
 theorem connect_initiator (s : Sess) (hc : s.st.connected = false) (ht : s.st.sessionTime = true) (hi : s.cfg.initiator = true) :
     connect s = ((sendLogonInReplyTo (connectBase s) (shouldSendReset (connectBase s))).setSt .logon, "ok") := by
@@ -249,7 +249,7 @@ theorem connectBase_store (s : Sess) : (connectBase s).store = if s.cfg.resetOnL
   unfold connectBase
   simp only []
   have : s.openConn.cfg = s.cfg := rfl
-  split <;> split <;> simp_all [Sess.storeReset, Sess.emit, Sess.openConn]
+  split <;> split <;> simp_all [dropAndReset, Sess.setToSend, Sess.storeReset, Sess.emit, Sess.openConn]
 
 /-! ### reset on logout / on disconnect -/
 
